@@ -24,8 +24,8 @@ from . import graphref as gr
 
 PROP = "C07"
 TIERS = {
-    "quick": {"runs": 6000, "wall": 75, "chunk": 60},
-    "thorough": {"runs": 400000, "wall": 840, "chunk": 100},
+    "quick": {"runs": 15000, "wall": 75, "chunk": 80},
+    "thorough": {"runs": 400000, "wall": 840, "chunk": 250},
 }
 STEP_CAP = 500000
 SHRINK_BUDGET = 300
